@@ -1,20 +1,32 @@
 """C22 every reply is exactly one well-formed RESP frame: Resp.tla (StrictOne, Command), MC_Resp.tla, MC_RespProbe.tla
 (CSpec / WSpec generators), Resp_Trace.tla, harness bin resp."""
 from . import resp_common as R
+from ..core import ToolError
+
+ALL17 = "{1,2,3,4,5,6,7,8,9,10,11,12,13,14,15,16,17}"
+UTF8_JVM = {"JAVA_TOOL_OPTIONS": "-Dfile.encoding=UTF-8 -Dstdout.encoding=UTF-8 -Dsun.stdout.encoding=UTF-8"}
 
 
 def run(ctx):
     q = ctx.quick
-    # self-test: an encoder that writes error text raw must violate RepliesWellFormed on the design model
+    # self-tests: an encoder that writes error text raw, and one that announces bulk lengths in characters instead of
+    # bytes, must violate RepliesWellFormed on the design model
     ctx.tlc_gen("MC_Resp", R.mc(1, 1, legacy='{"encode"}', emit=""), "legacy-encode-selftest", expect_violation=True)
+    ctx.tlc_gen("MC_Resp", R.mc(1, 1, legacy='{"chars"}', emit="", univ="{4,17}"), "chars-length-selftest", expect_violation=True)
     # design: every reply of the modelled command layer to every frame of the universe is one frame, under every chunking
-    ctx.tlc_gen("MC_Resp", R.mc(2, 2, emit="", univ="{1,3,4,5,7,9,11,12,13,14,15,16}") if q else R.mc(2, 3, emit=""), "design", timeout=2400)
-    # commands / queries / stored data with CR, LF, CRLF-bearing text in every syntactic position
-    # ... and (Sweep scripts) at every byte offset of an argument
-    scripts = ctx.tlc_gen("MC_RespProbe", R.probe("CSpec", "EmitCur"), "commands")
+    ctx.tlc_gen("MC_Resp", R.mc(2, 2, emit="", univ="{1,3,4,5,7,9,11,12,13,14,15,16,17}") if q else R.mc(2, 3, emit="", univ=ALL17),
+                "design", timeout=2400)
+    # commands / queries / stored data with CR, LF, CRLF-bearing text and with multi-byte UTF-8 text (2-, 3-, 4-byte
+    # characters) in every syntactic position: PING / ECHO payloads, string literals, stored property values, aliases ...
+    # ... and (Sweep scripts) at every byte offset of an argument.  (The non-ASCII literals of the spec need a UTF-8 JVM.)
+    scripts = ctx.tlc_gen("MC_RespProbe", R.probe("CSpec", "EmitCur"), "commands", env=UTF8_JVM)
+    nonascii = sum(1 for s in scripts if any(ord(ch) > 127 for st in s for a in st.get("args", []) for ch in a))
+    if nonascii < 100 or not any("\u20ac" in a for s in scripts for st in s for a in st.get("args", [])):
+        raise ToolError("C22: the multi-byte UTF-8 texts of MC_RespProbe.tla did not survive TLC (%d scripts with non-ASCII text)" % nonascii)
     ctx.assume("a reply is what handle_command returned, encoded by RespValue::encode (the bytes handle_connection writes); "
                "protocol-error replies of the read loop are covered by C21's Probe events",
-               "well-formed reply = one typed frame; simple string / error text may hold any byte except CR and LF")
+               "well-formed reply = one typed frame; simple string / error text may hold any byte except CR and LF; "
+               "bulk lengths are byte counts (payloads with 2-, 3- and 4-byte UTF-8 characters are part of every tier)")
     sp = ctx.write_scripts("resp-cmd", scripts)
     tr = ctx.run_harness("resp", sp, name="resp-cmd")
     ctx.validate("Resp_Trace", R.TRACE, tr, name="cmd", corrupt=R.corrupt_res)
